@@ -1,8 +1,9 @@
 // Reference models of the documented ASCON-SIV construction and of ISAP v2.0
 // (ISAP-A-128A / ISAP-A-128 / the 160-bit-key variant), written over the
-// library's *public permutation API* so that a change to the permutation itself
-// (C08 matter, not claimed) does not alarm here.  Self-tested against the
-// repository's own KAT files at start-up.
+// reference permutation of ascon_ref.h -- no library code is involved, so the
+// models stay right (and their KAT self-test keeps passing) when the library
+// under test is wrong, including when its permutation is.  Self-tested against
+// the repository's own KAT files at start-up.
 #pragma once
 #include <cstdint>
 #include <cstring>
@@ -18,7 +19,7 @@ typedef std::vector<uint8_t> Bytes;
 struct St {
     uint8_t b[40];
     St() { memset(b, 0, 40); }
-    void perm(int rounds) { ascon_ref::lib_permute(b, 12 - rounds); }
+    void perm(int rounds) { ascon_ref::permute_fast(b, 12 - rounds); }
     void xorb(const uint8_t *d, size_t off, size_t n) { for (size_t i = 0; i < n; ++i) b[off + i] ^= d[i]; }
     void set(const uint8_t *d, size_t off, size_t n) { memcpy(b + off, d, n); }
 };
